@@ -290,8 +290,10 @@ impl Session {
                     // beyond the table: as many further origins as one likes (`http://n<k>.example`)
                     let uri = if k < KEYS.len() { let variants = KEYS[k]; format!("{}/r{}", variants[r % variants.len()], r) }
                               else { format!("{}://n{k}.example/r{r}", if r % 2 == 0 { "http" } else { "HTTP" }) };
-                    let request = http::Request::builder().uri(uri).version(if mux { http::Version::HTTP_2 } else { http::Version::HTTP_11 })
-                        .header("x-req", r.to_string()).body(Body::empty()).unwrap();
+                    let mut b = http::Request::builder().uri(uri).version(if mux { http::Version::HTTP_2 } else { http::Version::HTTP_11 }).header("x-req", r.to_string());
+                    // some requests name a virtual host of their own: the origin, and with it the pool key, is the URI's
+                    if r % 4 == 3 { b = b.header(http::header::HOST, format!("vhost{}.test", r % 3)); }
+                    let request = b.body(Body::empty()).unwrap();
                     // (the checkout is created here: the idle list is looked at already)
                     match std::panic::catch_unwind(std::panic::AssertUnwindSafe(|| -> Fut { Box::pin(self.svc.call(request)) })) {
                         Ok(fut) => { self.reqs.insert(r, Req { fut: Some(fut), status: Status::Checkout, flag: Arc::new(WakeFlag(AtomicBool::new(false))) }); "D".into() }
